@@ -679,11 +679,19 @@ class PEval:
             sink = None
             if outn.get('kind') == 'CallExpr' and call_name(outn) == 'back_inserter':
                 sink = self.ev(call_args(outn)[0], env, depth)
-            if isinstance(first, tuple) and first[0] == 'iter' and isinstance(sink, Str):
-                for i in range(first[2], last[2]):
-                    ch = first[1].b[i]
-                    sch = ch - 256 if ch >= 128 else ch
+            items = None
+            if isinstance(first, tuple) and first[0] == 'iter':
+                items = list(first[1].b[first[2]:last[2]])
+            elif isinstance(first, Lit) and isinstance(last, Lit) and first.data is last.data:
+                items = [first.deref(i) for i in range(last.off - first.off)]
+            if items is not None and isinstance(sink, Str):
+                el_t = dtype(strip(args[0])) or ''
+                signed_elems = 'unsigned' not in el_t and 'uint8' not in el_t
+                for ch in items:
+                    sch = ch - 256 if (ch >= 128 and signed_elems) else ch
                     r = self.apply(fn, [sch], env, depth)
+                    if not isinstance(r, int):
+                        raise Undecided('std::transform callback result')
                     sink.b.append(r & 0xFF)
                 return None
             raise Undecided('std::transform form')
